@@ -207,6 +207,20 @@ def reload_consistent(sym, forest):
     sym.cover("reloaded")
     seen = invariant(sym, back, None, "reloaded")
     sym.check("all-variants-present", sorted(seen) == sorted(uid for vid, uid, p, a in FORESTS[forest]))
+    # the re-read forest refuses what the original refuses: a second variant with the id and UID of an existing one, at every position
+    for vid, uid, parent, arches in FORESTS[forest]:
+        container = back.variants if parent is None else back[parent]
+        before = contents(container)
+        dup = Variant(back)
+        dup.id, dup.uid, dup.name, dup.type, dup.arches = vid, uid, "duplicate", "variant", set(arches)
+        try:
+            container.add(dup)
+            raised = False
+        except ValueError:
+            raised = True
+        sym.check("duplicate-refused-after-reload[%s]" % uid, raised)
+        sym.check("container-unchanged-after-reload[%s]" % uid, same_contents(contents(container), before))
+        sym.check("by-id-after-reload[%s]" % uid, container.variants[vid].uid == uid)
 
 
 def get_variants_filter(sym, forest, types, recursive, start):
